@@ -174,6 +174,14 @@ func (fr *Frame) havocLoop(st *State, h *ssa.BasicBlock, body map[*ssa.BasicBloc
 	}
 	if fp.all {
 		x.havocAllHeap(st)
+	} else if len(fp.typed) > 0 {
+		pseudo := &FnContract{Key: fr.key + "#loop@" + fmt.Sprint(h.Index), ModTypes: fp.typed}
+		for s := range fp.sorts {
+			_ = s // stores of the loop body itself: their owners are not known here, so they join the havoc as raw sorts below
+		}
+		x.typedHavoc(st, entry.clone(), pseudo, func(n string) string { return n })
+		// the loop body's own stores (outside callees) are not described by types: those sorts are simply unknown at the head
+		x.havocSorts(st, fp.sorts)
 	} else {
 		x.havocSorts(st, fp.sorts)
 		var ks []string
@@ -225,6 +233,7 @@ type footprint struct {
 	cnts    map[string]bool
 	alloc   bool
 	locks   bool
+	typed   []string // resolved owner names of callees' "modifies types" clauses
 }
 
 func (fr *Frame) scanInstr(fp *footprint, in ssa.Instruction, inLoop func(ssa.Value) bool, depth int, st *State, explicit bool) {
@@ -261,6 +270,11 @@ func (fr *Frame) scanInstr(fp *footprint, in ssa.Instruction, inLoop func(ssa.Va
 	case *ssa.Next:
 		if !in.IsString {
 			fp.comps[mapIterKey(in.Iter)] = true // the ghost element count advances
+			if rg, ok := in.Iter.(*ssa.Range); ok {
+				if mt, ok := rg.X.Type().Underlying().(*types.Map); ok {
+					fp.comps[mapVisitedKey(in.Iter, x.c.sortOf(mt.Key()))] = true
+				}
+			}
 		}
 	case *ssa.Send:
 		fp.cnts["cnt:chan:send"] = true
@@ -278,6 +292,17 @@ func (fr *Frame) scanInstr(fp *footprint, in ssa.Instruction, inLoop func(ssa.Va
 			fp.cnts["cnt:go:dynamic:"+fr.describeValue(cc.Value)] = true
 		}
 	case *ssa.Defer:
+		if depth > 0 {
+			// a defer of a function called from the loop body runs when that function returns: an ordinary call
+			if f := in.Common().StaticCallee(); f != nil {
+				if _, ok := lockMethod(FuncKey(f)); ok {
+					fp.locks = true
+					return
+				}
+			}
+			fp.alloc = true
+			return
+		}
 		x.c.Notes = append(x.c.Notes, fr.key+": defer inside a loop is outside the subset")
 		fp.all = true
 	case *ssa.Call:
@@ -325,7 +350,10 @@ func (fr *Frame) scanInstr(fp *footprint, in ssa.Instruction, inLoop func(ssa.Va
 		}
 		ct := x.w.Contracts[key]
 		if ct != nil && ct.HasSpec && !ct.Inline {
-			if ct.ModAll || len(ct.ModTypes) > 0 || (len(ct.Modifies) > 0 && !(explicit && depth == 0)) {
+			if len(ct.ModTypes) > 0 && !ct.ModAll {
+				// a callee with a typed frame: the loop head gets a typed havoc (union over such callees)
+				fp.typed = append(fp.typed, x.resolveModTypes(ct, f)...)
+			} else if ct.ModAll || (len(ct.Modifies) > 0 && !(explicit && depth == 0)) {
 				fp.all = true
 			}
 			if !ct.pureNoAlloc() {
